@@ -203,7 +203,10 @@ class ExcelCompiler:
         def cell_value(a_cell):
             if a_cell.formula and a_cell.formula.python_code:
                 return '=' + a_cell.formula.python_code
-            elif isinstance(a_cell.value, np.float64):
+            elif isinstance(a_cell.value, float):
+                # a plain float: numpy's, or the one a yaml file was loaded
+                # with, which is written again with the width it was read
+                # with and can lose its last digit that way
                 return float(a_cell.value)
             else:
                 return a_cell.value
